@@ -591,11 +591,16 @@ Proof.
 Qed.
 
 (* a connection-level error (GOAWAY received or sent, I/O failure, connection-level reset): *)
+(* [poll_reset] always reports e; a read reports e unless the peer's message was already complete
+   (HalfClosedRemote), then it ends cleanly and only the cause records e *)
 Theorem handle_error_surfaces e s :
   is_closed s = false ->
   let s' := fst (handle_error e s) in
-  s' = Closed (CError e) /\
-  ensure_recv_open s' = RProtoErr e /\
+  (is_recv_end_stream s = false ->
+     s' = Closed (CError e) /\ ensure_recv_open s' = RProtoErr e) /\
+  (is_recv_end_stream s = true ->
+     s' = Closed (ErrorAfterEndStream e) /\ ensure_recv_open s' = RBool false /\
+     is_recv_end_stream s' = true) /\
   is_local_error s' = error_is_local e /\
   match e with
   | EReset _ r _ | EGoAway _ r _ => both_modes (fun m => ensure_reason m s') (RReason (Some r))
@@ -603,27 +608,41 @@ Theorem handle_error_surfaces e s :
   end.
 Proof.
   intros NC. unfold both_modes.
-  d_state s; cbn in NC |- *; try discriminate; destruct e; cbn; auto.
+  d_state s; cbn in NC |- *; try discriminate; destruct e; cbn;
+    repeat split; auto; intros; discriminate.
 Qed.
 
 Corollary go_away_surfaces debug r i s :
   is_closed s = false ->
   let s' := fst (handle_error (EGoAway debug r i) s) in
-  ensure_recv_open s' = RProtoErr (EGoAway debug r i) /\
+  (is_recv_end_stream s = false -> ensure_recv_open s' = RProtoErr (EGoAway debug r i)) /\
+  (is_recv_end_stream s = true -> ensure_recv_open s' = RBool false) /\
+  (s' = Closed (CError (EGoAway debug r i)) \/ s' = Closed (ErrorAfterEndStream (EGoAway debug r i))) /\
   both_modes (fun m => ensure_reason m s') (RReason (Some r)) /\
   is_local_error s' = initiator_is_local i.
 Proof.
-  intros NC. destruct (handle_error_surfaces (EGoAway debug r i) s NC) as (_ & A & B & C). auto.
+  intros NC. destruct (handle_error_surfaces (EGoAway debug r i) s NC) as (A & B & C & D).
+  repeat split; auto.
+  - intros R. apply A; auto.
+  - intros R. apply B; auto.
+  - destruct (is_recv_end_stream s) eqn:R; [right; apply B | left; apply A]; auto.
+  - apply D.
+  - apply D.
 Qed.
 
 Theorem recv_eof_surfaces s :
   is_closed s = false ->
   let s' := fst (recv_eof s) in
-  s' = Closed (CError (EIo IO_BROKEN_PIPE (Some EOF_MSG))) /\
-  ensure_recv_open s' = RProtoErr (EIo IO_BROKEN_PIPE (Some EOF_MSG)) /\
+  (is_recv_end_stream s = false ->
+     s' = Closed (CError (EIo IO_BROKEN_PIPE (Some EOF_MSG))) /\
+     ensure_recv_open s' = RProtoErr (EIo IO_BROKEN_PIPE (Some EOF_MSG))) /\
+  (is_recv_end_stream s = true ->
+     s' = Closed (ErrorAfterEndStream (EIo IO_BROKEN_PIPE (Some EOF_MSG))) /\
+     ensure_recv_open s' = RBool false /\ is_recv_end_stream s' = true) /\
   both_modes (fun m => ensure_reason m s') (RProtoErr (EIo IO_BROKEN_PIPE (Some EOF_MSG))).
 Proof.
-  intros NC. unfold both_modes. d_state s; cbn in NC |- *; try discriminate; auto.
+  intros NC. unfold both_modes.
+  d_state s; cbn in NC |- *; try discriminate; repeat split; auto; intros; discriminate.
 Qed.
 
 Theorem set_reset_surfaces sid r i s :
@@ -687,22 +706,70 @@ Qed.
 Lemma closed_never_pending s : is_closed s = true -> ensure_recv_open s <> RBool true.
 Proof. d_state s; cbn; try discriminate. Qed.
 
-(* which streams with a completely received message keep their clean end *)
-Theorem completed_message_after_connection_end dbg s o :
+(* the code a closed stream's cause carries, as poll_reset reports it *)
+Definition reason_report (e : perror) : res :=
+  match e with
+  | EReset _ r _ | EGoAway _ r _ => RReason (Some r)
+  | EIo _ _ => RProtoErr e
+  end.
+
+(* A stream whose peer had finished its message (is_recv_end_stream: HalfClosedRemote,
+   Closed(EndStream), Closed(ErrorAfterEndStream)) keeps the clean end when the connection ends:
+   after handle_error / recv_eof and every later method sequence without a relabelling call, a read
+   ends with Ok(false); the error is still recorded as the cause and poll_reset reports its code. *)
+Theorem completed_message_after_connection_end dbg s o os :
   conn_ending o = true -> is_recv_end_stream s = true ->
-  let s' := fst (step dbg s o) in
-  (* already closed (both halves done, or reset by the peer after its END_STREAM): untouched *)
-  (is_closed s = true -> s' = s /\ ensure_recv_open s' = RBool false /\ is_recv_end_stream s' = true)
-  /\
-  (* receive half complete but our half still open: the END_STREAM is forgotten *)
+  forallb (fun o' => negb (relabels dbg o')) os = true ->
+  let s1 := fst (step dbg s o) in
+  let s2 := run dbg s1 os in
+  s2 = s1 /\ is_closed s2 = true /\
+  is_recv_end_stream s2 = true /\ ensure_recv_open s2 = RBool false /\
+  (is_closed s = true -> s1 = s) /\
   (is_closed s = false ->
-   exists p e, s = HalfClosedRemote p /\ s' = Closed (CError e) /\
-               ensure_recv_open s' = RProtoErr e /\ is_recv_end_stream s' = false /\
-               (o = OHandleError e \/ (o = ORecvEof /\ e = eof_error))).
+   exists p e, s = HalfClosedRemote p /\ s1 = Closed (ErrorAfterEndStream e) /\
+               (o = OHandleError e \/ (o = ORecvEof /\ e = eof_error)) /\
+               forall m, ensure_reason m s2 = reason_report e).
 Proof.
-  intros E R s'. subst s'.
-  d_op o; cbn in E; try discriminate; d_state s; cbn in R |- *; try discriminate;
-    split; intros C; try discriminate; eauto 10.
+  intros E R F s1 s2.
+  assert (C1 : exists c, s1 = Closed c /\ is_recv_end_stream s1 = true /\
+                         ensure_recv_open s1 = RBool false).
+  { subst s1. d_op o; cbn in E; try discriminate; d_state s; cbn in R |- *; try discriminate; eauto. }
+  destruct C1 as (c & C1 & C2 & C3).
+  assert (S2 : s2 = s1). { subst s2. rewrite C1. apply closed_cause_forever; auto. }
+  rewrite S2. repeat split; auto.
+  - rewrite C1; reflexivity.
+  - intros C. subst s1. d_op o; cbn in E; try discriminate; d_state s; cbn in C |- *;
+      try discriminate; reflexivity.
+  - intros C. subst s1.
+    d_op o; cbn in E; try discriminate; d_state s; cbn in R, C |- *; try discriminate.
+    + exists AwaitingHeaders, e. repeat split; auto; try (intros m; destruct e, m; reflexivity).
+    + exists Streaming, e. repeat split; auto; try (intros m; destruct e, m; reflexivity).
+    + exists AwaitingHeaders, eof_error. repeat split; auto; try (intros m; destruct m; reflexivity).
+    + exists Streaming, eof_error. repeat split; auto; try (intros m; destruct m; reflexivity).
+Qed.
+
+(* The defect this repaired (h2 before commit "fix: keep the clean end of a completely received
+   message when the connection ends"): handle_error / recv_eof had no HalfClosedRemote arm. *)
+Definition handle_error_old (e : perror) (s : state) : state * res :=
+  match s with
+  | Closed _ => (s, RUnit)
+  | _ => (Closed (CError e), RUnit)
+  end.
+
+Theorem fix_needed :
+  ~ (forall e s, is_recv_end_stream s = true ->
+                 ensure_recv_open (fst (handle_error_old e s)) = RBool false) /\
+  (forall e s, is_recv_end_stream s = true ->
+               ensure_recv_open (fst (handle_error e s)) = RBool false) /\
+  (forall e p, is_recv_end_stream (HalfClosedRemote p) = true /\
+               ensure_recv_open (HalfClosedRemote p) = RBool false /\
+               ensure_recv_open (fst (handle_error_old e (HalfClosedRemote p))) = RProtoErr e).
+Proof.
+  split; [|split].
+  - intros A. specialize (A eof_error (HalfClosedRemote Streaming) eq_refl).
+    vm_compute in A. discriminate.
+  - intros e s R. d_state s; cbn in R |- *; try discriminate; reflexivity.
+  - intros e p. destruct p; repeat split.
 Qed.
 
 (* the contrast: the peer's RST_STREAM keeps the received END_STREAM in every state *)
@@ -789,8 +856,10 @@ Proof. split; reflexivity. Qed.
 Example ex_completed_then_eof :
   is_recv_end_stream (HalfClosedRemote Streaming) = true /\
   ensure_recv_open (HalfClosedRemote Streaming) = RBool false /\
-  ensure_recv_open (fst (recv_eof (HalfClosedRemote Streaming))) = RProtoErr eof_error /\
-  ensure_recv_open (fst (recv_eof (Closed EndStream))) = RBool false.
+  fst (recv_eof (HalfClosedRemote Streaming)) = Closed (ErrorAfterEndStream eof_error) /\
+  ensure_recv_open (fst (recv_eof (HalfClosedRemote Streaming))) = RBool false /\
+  ensure_recv_open (fst (recv_eof (Closed EndStream))) = RBool false /\
+  ensure_recv_open (fst (recv_eof (Open Streaming Streaming))) = RProtoErr eof_error.
 Proof. repeat split. Qed.
 
 Example ex_no_relabel :
